@@ -21,17 +21,25 @@ import (
 // runs on ONE vm.VM value; transition function = the real (*VM).Run; state = every
 // field of the VM struct (read reflectively) + vm.MemoryBudget.
 
+// c07SharedNames is ONE list (nine elements, one backing array) that two operations overwrite in place before running.
+var c07SharedNames = []string{"k0", "k1", "k2", "k3", "k4", "k5", "k6", "k7", "k8"}
+
 type c07Op struct {
 	name   string
 	prog   *vm.Program
 	env    interface{}
-	budget int // >0: configuration operation "set vm.MemoryBudget"
+	pre    func() // host-side change of the (shared) environment made right before this run
+	budget int    // >0: configuration operation "set vm.MemoryBudget"
 }
 
 type c07Env struct {
-	N, Z int
-	A    []int
-	Big  []int
+	N, Z  int
+	A     []int
+	Big   []int
+	S, T  string
+	Names []string
+	O     *c07Env
+	X     interface{}
 }
 
 func (c07Env) Boom(i int) int    { panic("boom") }
@@ -83,6 +91,14 @@ func c07Ops() []c07Op {
 		{name: "noEnvProgOnMap", prog: mustC(`N + Z`), env: map[string]interface{}{"N": 40, "Z": 2}},
 		{name: "noEnvProgOnStruct", prog: mustC(`N + Z`), env: se(2, 1)},
 		{name: "noEnvProgOnTypedMap", prog: mustC(`N + Z`), env: map[string]int{"N": 7, "Z": 7}},
+		{name: "matchValid", prog: mustC(`S matches T`, expr.Env(c07Env{}), noopt), env: c07Env{S: "abc", T: "b"}},
+		{name: "matchInvalid", prog: mustC(`S matches T`, expr.Env(c07Env{}), noopt), env: c07Env{S: "abc", T: "a("}},
+		{name: "matchOther", prog: mustC(`T matches S`, expr.Env(c07Env{}), noopt), env: c07Env{S: "a(", T: "a("}},
+		{name: "inListFirst", prog: mustC(`"k0" in Names`, expr.Env(c07Env{}), noopt), env: c07Env{Names: c07SharedNames}, pre: func() { c07SharedNames[0] = "k0" }},
+		{name: "inListOverwritten", prog: mustC(`"k0" in Names`, expr.Env(c07Env{}), noopt), env: c07Env{Names: c07SharedNames}, pre: func() { c07SharedNames[0] = "zz" }},
+		{name: "nilSafeNil", prog: mustC(`O?.S`, expr.Env(c07Env{}), noopt), env: c07Env{}},
+		{name: "indexOfNil", prog: mustC(`X[0]`, expr.Env(c07Env{}), noopt), env: c07Env{}},
+		{name: "propertyOfNil", prog: mustC(`O.S`, expr.Env(c07Env{}), noopt), env: c07Env{}},
 		{name: "budget5", budget: 5},
 		{name: "budget10", budget: 10},
 	}
@@ -101,6 +117,9 @@ func c07Run(v *vm.VM, op c07Op) c07Res {
 		vm.MemoryBudget = op.budget
 		return c07Res{out: "budget"}
 	}
+	if op.pre != nil {
+		op.pre()
+	}
 	out, err := v.Run(op.prog, op.env)
 	if err != nil {
 		return c07Res{failed: true, out: err.Error()}
@@ -111,6 +130,9 @@ func c07Run(v *vm.VM, op c07Op) c07Res {
 func c07Fresh(op c07Op) c07Res {
 	if op.budget > 0 {
 		return c07Res{out: "budget"}
+	}
+	if op.pre != nil {
+		op.pre()
 	}
 	out, err := vm.Run(op.prog, op.env)
 	if err != nil {
@@ -134,6 +156,9 @@ func c07Replay(ops []c07Op, hist []int, base int) (last, fresh c07Res, state str
 		if ops[i].budget > 0 {
 			last = c07Run(v, ops[i])
 			continue
+		}
+		if ops[i].pre != nil {
+			ops[i].pre()
 		}
 		out, err := v.Run(ops[i].prog, ops[i].env)
 		if err != nil {
